@@ -156,6 +156,10 @@ class InferenceState:
     def reset_recursion_limitations(self):
         self.recursion_detector = recursion.RecursionDetector()
         self.execution_recursion_detector = recursion.ExecutionRecursionDetector(self)
+        # The per-context inference cap (see syntax_tree._limit_value_infers) is a
+        # limit for one query, like the other recursion limits. Without this, the
+        # answer of a query depends on how much earlier queries on the same Script inferred.
+        self.inferred_element_counts = {}
 
     def get_sys_path(self, **kwargs):
         """Convenience function"""
